@@ -133,7 +133,7 @@ Definition derived_tail_check : bool :=
   end.
 
 Lemma derived_tail_holds : derived_tail_check = true.
-Proof. vm_compute. reflexivity. Qed.
+Proof. vm_cast_no_check (eq_refl true). Qed.
 
 (* the statement in terms of individual forms *)
 Theorem derived_tail : forall s1 sk sj form,
